@@ -19,14 +19,16 @@
     admits0 …                               same without the state reduction (cross-check)
 
   Events of a history (one token each):
-    B.<i>.<ow>.<body>        caller i (= number of B events before it) is about to call TarsInvoke
+    B.<i>.<ow>.<body>[.<proxy>]  caller i (= number of B events before it) is about to call TarsInvoke on
+                             ServantProxy object <proxy> (default 0)
                              (ow = 1: one-way); model actions `spawn`, `call i begin`
     Q.<a>.<id>.<i>           the peer of adapter a has read the request of caller i, it carries id:
                              a FILTER (no action): call i has this id and has enqueued its request
     E.<a>.<id>.<ow>.<body>   the peer of adapter a sends a response packet; model action `emit`
     R.<i>.ok.<id>.<body>     TarsInvoke of caller i returned nil with this response; action `call i post`
     R.<i>.err | R.<i>.ow     … returned an error | nil for a one-way request
-    Z.<queueLen>.<pending>.<invokeNum>   FILTER: the three counters read through the verif export
+    Z.<queueLen[,queueLen…]>.<pending>.<invokeNum>   FILTER: the counters read through the verif export
+                             (queueLen of every ServantProxy object, in order)
     M.<ctr>                  FILTER: msgID read through the verif export
 
   `admits` decides whether the LTS `Tars.Route.step` has an execution from `init cfg ctr0` whose visible
@@ -59,21 +61,25 @@ def splitOn (sep : Char) (s : String) : List String :=
         | x :: xs => (c :: x) :: xs) [[]]).map String.ofList
 
 inductive Ev
-  | begin (i : Nat) (ow : Bool) (body : Nat)
+  | begin (i : Nat) (ow : Bool) (body : Nat) (px : Nat)
   | req (a : Nat) (id : Int) (i : Nat)
   | emit (a : Nat) (p : Pkt)
   | retOk (i : Nat) (id : Int) (body : Nat)
   | retErr (i : Nat)
   | retOw (i : Nat)
-  | quiet (q : Int) (p : Nat) (n : Int)
+  | quiet (qs : List Int) (p : Nat) (n : Int)
   | ctr (v : Int)
 
 def parseEv (tok : String) : Option Ev :=
   match splitOn '.' tok with
   | ["B", i, ow, b] =>
     match parseNat? i, parseBool? ow, parseNat? b with
-    | some i, some ow, some b => some (.begin i ow b)
+    | some i, some ow, some b => some (.begin i ow b 0)
     | _, _, _ => none
+  | ["B", i, ow, b, px] =>
+    match parseNat? i, parseBool? ow, parseNat? b, parseNat? px with
+    | some i, some ow, some b, some px => some (.begin i ow b px)
+    | _, _, _, _ => none
   | ["Q", a, id, i] =>
     match parseNat? a, parseInt? id, parseNat? i with
     | some a, some id, some i => some (.req a id i)
@@ -89,8 +95,10 @@ def parseEv (tok : String) : Option Ev :=
   | ["R", i, "err"] => (parseNat? i).map .retErr
   | ["R", i, "ow"] => (parseNat? i).map .retOw
   | ["Z", q, p, n] =>
-    match parseInt? q, parseNat? p, parseInt? n with
-    | some q, some p, some n => some (.quiet q p n)
+    match (splitOn ',' q).foldr (fun w acc => match parseInt? w, acc with
+        | some v, some l => some (v :: l)
+        | _, _ => none) (some []), parseNat? p, parseInt? n with
+    | some qs, some p, some n => some (.quiet qs p n)
     | _, _, _ => none
   | ["M", v] => (parseInt? v).map .ctr
   | _ => none
@@ -277,9 +285,9 @@ def pastEnqueue : Pc → Bool
 
 /-- the successors of `s` under the visible event `e` (filters keep or drop `s`) -/
 def onState (cfg : Cfg) (s : State) : Ev → List State
-  | .begin i ow body =>
+  | .begin i ow body px =>
     if s.calls.length = i then
-      match step cfg s (.spawn ⟨ow, body, none, none⟩) with
+      match step cfg s (.spawn ⟨ow, body, none, none, px⟩) with
       | some s1 => (step cfg s1 (.call i .begin)).toList
       | none => []
     else []
@@ -302,7 +310,9 @@ def onState (cfg : Cfg) (s : State) : Ev → List State
     match s.calls[i]? with
     | some c => if c.pc = .post .onewayOk then (step cfg s (.call i .post)).toList else []
     | none => []
-  | .quiet q p n => if s.queueLen = q ∧ s.table.length = p ∧ s.invokeNum = n then [s] else []
+  | .quiet qs p n =>
+    if ((List.range qs.length).all (fun k => qGet s.queueLens k == qs.getD k 0)) ∧ s.table.length = p ∧ s.invokeNum = n then [s]
+    else []
   | .ctr v => if s.gen.ctr = v then [s] else []
 
 def onEvent (cfg : Cfg) (cn : State → State) (budget : Nat) (cur : SSet) (e : Ev) : Option SSet :=
@@ -371,14 +381,14 @@ def handle (ws : List String) : String :=
       | "middleware" => some .middleware | "prepost" => some .prePost | _ => none
     match parseNat? t, parseOptNat ctx, parseOptNat per, parseNat? now, pth with
     | some t, some ctx, some per, some now, some pth =>
-      (match Tars.Call.handedDeadline ⟨1, 0, 1, 0, 0, t⟩ now ⟨false, 0, ctx, per⟩ pth with
+      (match Tars.Call.handedDeadline ⟨1, 0, 1, 0, 0, t⟩ now ⟨false, 0, ctx, per, 0⟩ pth with
       | some d => toString d
       | none => "none")
     | _, _, _, _, _ => "bad-op"
   | ["deadline", t, ctx, per, now] =>
     match parseNat? t, parseOptNat ctx, parseOptNat per, parseNat? now with
     | some t, some ctx, some per, some now =>
-      toString (Tars.Call.effDeadline ⟨1, 0, 1, 0, 0, t⟩ now ⟨false, 0, ctx, per⟩)
+      toString (Tars.Call.effDeadline ⟨1, 0, 1, 0, 0, t⟩ now ⟨false, 0, ctx, per, 0⟩)
     | _, _, _, _ => "bad-op"
   | ["budget", d, w, st, dl, la, bl] =>
     match parseNat? d, parseNat? w, parseNat? st, parseNat? dl, parseNat? la, parseBool? bl with
